@@ -105,7 +105,7 @@ func runC18(c *run.Ctx) {
 	}
 	if !isDiff {
 		r.Ev("list_invocations", 1)
-		format := rng.Pick(g, []string{"txt", "json", "csv", "md", "dot", ""})
+		format := rng.Pick(g, []string{"txt", "json", "csv", "md", "dot", "", "txt", "json", "csv", "md", "dot", "", "xml"}) // "xml": not a format - an error on both sides
 		opts := observe.ListOpts{Format: format, StopOnError: fail}
 		args := []string{"list", "--dirpath", dir}
 		if format != "" {
@@ -186,7 +186,7 @@ func runC18(c *run.Ctx) {
 			r.Discarded = err.Error()
 			return
 		}
-		format := rng.Pick(g, []string{"txt", "csv", "md", "dot", ""})
+		format := rng.Pick(g, []string{"txt", "csv", "md", "dot", "", "txt", "csv", "md", "dot", "", "json"}) // diff has no json format
 		opts := observe.DiffOpts{Format: format, StopOnError: fail, Names: [2]string{"dir1", "dir2"}}
 		d1, d2 := dir, dir2
 		if g.P(0.5) {
